@@ -201,10 +201,11 @@ bool_t ecMulA(word b[], const word a[], const ec_o* ec, const word d[], size_t m
 bool_t ecAddMulA(word b[], const ec_o* ec, void* stack, size_t k, ...)
 {
 	va_list ap; size_t i, j;
-	REQ(E.naddmul == 0, "ecAddMulA: one call"); REQ(k == 2, "ecAddMulA: two terms");
+	REQ(E.naddmul == 0, "ecAddMulA: one call"); REQ(k == 2 || k == 3, "ecAddMulA: two or three terms");
 	E.naddmul = 1; E.am_b = b; E.am_ec = ec; E.am_k = k;
+	E.am_m[2] = 0;
 	va_start(ap, k);
-	for (i = 0; i < 2 && i < k; ++i)
+	for (i = 0; i < 3 && i < k; ++i)
 	{
 		const word* pt = va_arg(ap, const word*); const word* d = va_arg(ap, const word*); size_t m = va_arg(ap, size_t);
 		REQ(m <= NW + 1, "ecAddMulA: scalar length");
@@ -213,7 +214,10 @@ bool_t ecAddMulA(word b[], const ec_o* ec, void* stack, size_t k, ...)
 		for (j = 0; j < NW + 1; ++j) E.am_d[i][j] = j < m ? d[j] : 0;
 	}
 	va_end(ap);
-	REQ(FITS(stack, ecAddMulA_deep(NW, ENV_EC_D, ENV_EC_DEEP, 2, E.am_m[0], E.am_m[1])), "ecAddMulA: stack of ecAddMulA_deep octets inside the state");
+	if (k == 2)
+		REQ(FITS(stack, ecAddMulA_deep(NW, ENV_EC_D, ENV_EC_DEEP, 2, E.am_m[0], E.am_m[1])), "ecAddMulA: stack of ecAddMulA_deep octets inside the state");
+	else
+		REQ(FITS(stack, ecAddMulA_deep(NW, ENV_EC_D, ENV_EC_DEEP, 3, E.am_m[0], E.am_m[1], E.am_m[2])), "ecAddMulA: stack of ecAddMulA_deep octets inside the state (three terms)");
 	E.am_ret = nondet_int() ? TRUE : FALSE;
 	hv_words(b, 2 * NW);
 	for (j = 0; j < 2 * NW; ++j) E.am_out[j] = b[j];
@@ -222,7 +226,7 @@ bool_t ecAddMulA(word b[], const ec_o* ec, void* stack, size_t k, ...)
 bool_t ecpIsOnA(const word a[], const ec_o* ec, void* stack)
 {
 	size_t j;
-	REQ(E.nison == 0, "ecpIsOnA: one call"); REQ(ec == E.ec, "ecpIsOnA: the curve of the parameters");
+	REQ(E.nison == 0, "ecpIsOnA: one call"); E.ison_nfrom = E.nfrom; REQ(ec == E.ec, "ecpIsOnA: the curve of the parameters");
 	REQ(FITS(stack, ecpIsOnA_deep(NW, ENV_F_DEEP)), "ecpIsOnA: stack of ecpIsOnA_deep octets inside the state");
 	E.nison = 1; E.ison_a = a; for (j = 0; j < 2 * NW; ++j) E.ison_val[j] = a[j];
 	E.ison_ret = nondet_int() ? TRUE : FALSE;
@@ -251,7 +255,7 @@ void beltHashStart(void* state)
 }
 void beltHashStepH(const void* buf, size_t count, void* state) { REQ(count <= SNAP, "beltHashStepH: length"); REQ(__CPROVER_r_ok(buf, count), "beltHashStepH: buffer"); REQ(FITS(state, beltHash_keep()), "beltHashStepH: state"); h_rec(H_STEPH, buf, count, state); }
 void beltHashStepG(octet hash[32], void* state) { size_t j; REQ(FITS(state, beltHash_keep()), "beltHashStepG: state"); h_rec(H_G, hash, 32, state); hv_octets(hash, 32); for (j = 0; j < 32; ++j) E.h_out[j] = hash[j]; }
-void beltHashStepG2(octet hash[], size_t hash_len, void* state) { size_t j; REQ(hash_len <= 32, "beltHashStepG2: length"); REQ(FITS(state, beltHash_keep()), "beltHashStepG2: state"); h_rec(H_G2, hash, hash_len, state); hv_octets(hash, hash_len); for (j = 0; j < 32; ++j) E.h_out[j] = j < hash_len ? hash[j] : 0; }
+void beltHashStepG2(octet hash[], size_t hash_len, void* state) { size_t j; REQ(hash_len <= 32, "beltHashStepG2: length"); REQ(FITS(state, beltHash_keep()), "beltHashStepG2: state"); h_rec(H_G2, hash, hash_len, state); hv_octets(hash, hash_len); for (j = 0; j < 32; ++j) E.h_out[j] = j < hash_len ? hash[j] : 0; if (E.nh == 5) for (j = 0; j < 32; ++j) E.h_out4[j] = E.h_out[j]; }
 bool_t beltHashStepV(const octet hash[32], void* state) { h_rec(H_V, hash, 32, state); E.h_ret = nondet_int() ? TRUE : FALSE; return E.h_ret; }
 bool_t beltHashStepV2(const octet hash[], size_t hash_len, void* state) { REQ(hash_len <= 32, "beltHashStepV2: length"); REQ(__CPROVER_r_ok(hash, hash_len), "beltHashStepV2: buffer"); REQ(FITS(state, beltHash_keep()), "beltHashStepV2: state"); h_rec(H_V2, hash, hash_len, state); E.h_ret = nondet_int() ? TRUE : FALSE; return E.h_ret; }
 
@@ -332,6 +336,14 @@ static void addsub(int kind, word c[], const word a[], const word b[], const wor
 }
 void zzAddMod(word c[], const word a[], const word b[], const word mod[], size_t n) { addsub(1, c, a, b, mod, n); }
 void zzSubMod(word c[], const word a[], const word b[], const word mod[], size_t n) { addsub(-1, c, a, b, mod, n); }
+void zzNegMod(word b[], const word a[], const word mod[], size_t n)
+{
+	size_t j;
+	REQ(E.nneg == 0, "zzNegMod: one call"); REQ(n == NW, "zzNegMod: n"); REQ(lt_(a, mod, n), "zzNegMod: a < mod");
+	E.nneg = 1; E.neg_mod = mod; for (j = 0; j < NW; ++j) E.neg_in[j] = a[j];
+	hv_words(b, n); __CPROVER_assume(lt_(b, mod, n));
+	for (j = 0; j < NW; ++j) E.neg_out[j] = b[j];
+}
 
 /* ---- DER of the hash algorithm identifier */
 size_t oidFromDER(char* oid, const octet buf[], size_t count)
